@@ -74,7 +74,7 @@ def run(tier, replay_file=None):
     if not quick:       # (5 ids x length 5 exhausts TLC's heap: 5 ids are enumerated to length 4)
         hs5, _ = gen.histories("Abm", consts(5), 4)
         hs = hs + hs5
-    hs2, st2 = gen.histories("Abm", consts(14), 30 if quick else 60, simulate=60 if quick else 1500,
+    hs2, st2 = gen.histories("Abm", consts(14), 30 if quick else 40, simulate=60 if quick else 500,
                              seed=common.seed() + 1, cache=False)
     R.cov["bfs_histories"], R.cov["sim_histories"] = len(hs), len(hs2)
     R.cov["exhaustive"] = True
@@ -99,27 +99,30 @@ def run(tier, replay_file=None):
     import random
     rng = random.Random(common.seed() + 99)
     traces = []
-    for _ in range(12 if quick else 200):
-        ev, failed = random_trace(rng, 40 if quick else 80)
+    for _ in range(12 if quick else 120):
+        ev, failed = random_trace(rng, 40 if quick else 60)
         if failed:
             R.violation("a registry query failed or answered about another agent", failed)
         traces.append(ev)
     if traces and not R.violations:
-        c = dict(consts(100000), L='0')
-        c["Traces"] = tlc.tla(traces)
-        tv = tlc.run("AbmTrace", c, init="TraceInit", next="TraceNext", invariants=INVS, deadlock=True, workers=1, timeout=1800)
-        R.add("traces_validated_against_impl", len(traces))
-        R.cov["tlc_trace_validations"] = len(traces)
-        R.cov["trace_events"] = sum(len(t) for t in traces)
-        if tv.violation:
-            import re
-            tids, ls = re.findall(r"/\\ tid = (\d+)", tv.trace), re.findall(r"/\\ l = (\d+)", tv.trace)
-            t, li = (int(tids[-1]) if tids else 1), (int(ls[-1]) if ls else 1)
-            evs = traces[t - 1]
-            R.violation("recorded registry trace is not a behaviour of Abm (%s)" % tv.violation,
-                        {"unexplained_event_index": li,
-                         "unexplained_event": ({k: (sorted(v) if isinstance(v, set) else v) for k, v in evs[li - 1].items()} if li <= len(evs) else None),
-                         "preceding_ops": [{k: (sorted(v) if isinstance(v, set) else v) for k, v in e.items() if k != "q"} for e in evs[max(0, li - 6):li]]})
+        import re
+        for lo in range(0, len(traces), 12):          # TLC holds the traces as one constant: validate them in batches
+            batch = traces[lo:lo + 12]
+            c = dict(consts(100000), L='0')
+            c["Traces"] = tlc.tla(batch)
+            tv = tlc.run("AbmTrace", c, init="TraceInit", next="TraceNext", invariants=INVS, deadlock=True, workers=1, timeout=1800)
+            R.add("traces_validated_against_impl", len(batch))
+            R.add("tlc_trace_validations", len(batch))
+            R.add("trace_events", sum(len(t) for t in batch))
+            if tv.violation:
+                tids, ls = re.findall(r"/\\ tid = (\d+)", tv.trace), re.findall(r"/\\ l = (\d+)", tv.trace)
+                t, li = (int(tids[-1]) if tids else 1), (int(ls[-1]) if ls else 1)
+                evs = batch[t - 1]
+                R.violation("recorded registry trace is not a behaviour of Abm (%s)" % tv.violation,
+                            {"unexplained_event_index": li,
+                             "unexplained_event": ({k: (sorted(v) if isinstance(v, set) else v) for k, v in evs[li - 1].items()} if li <= len(evs) else None),
+                             "preceding_ops": [{k: (sorted(v) if isinstance(v, set) else v) for k, v in e.items() if k != "q"} for e in evs[max(0, li - 6):li]]})
+                break
         # negative control for the trace specification: one corrupted observation must be rejected
         import copy as _copy
         evil = _copy.deepcopy(traces[0][:10])
